@@ -317,12 +317,30 @@ fn c02(a: &Args) -> Report {
         Op::Delete { k: 0, ts: 1, oip: false, meta: 0 },
         Op::Rot,
     ];
-    let mut s = SeqSpec::new("C02/deep-small", small, if thorough { 8 } else { 6 });
+    let mut s = SeqSpec::new("C02/deep-small", small.clone(), if thorough { 8 } else { 6 });
     s.metas = vec![0, 1, 2];
     s.checks = Checks { outcome: true, latest: true, history: true, ..Default::default() };
+    specs.push(s.clone());
+    // the same with restarts under the other configuration (8-byte keys, 70-bit bloom filter,
+    // filter groups of two blobs, background I/O, duplicates disallowed)
+    let mut alt = small;
+    alt.push(Op::Rst);
+    s.name = "C02/deep-small/alt-config".into();
+    s.alphabet = alt;
+    s.depth = if thorough { 7 } else { 5 };
+    alt_config(&mut s);
+    s.wcfg.allow_duplicates = false;
     specs.push(s);
     let results = run_specs(&specs, a, &no_known);
     seq_report("C02", a, "model_checking", results, SEQ_RULE)
+}
+
+/// The configuration corner opposite to the default one.
+fn alt_config(s: &mut SeqSpec) {
+    s.key_len = 8;
+    s.wcfg.bloom = BloomCfg::Bits(70);
+    s.wcfg.group_size = 2;
+    s.io_mode = IoMode::Background;
 }
 
 fn lifecycle_alphabet() -> Vec<Op> {
@@ -582,10 +600,16 @@ fn c15(a: &Args) -> Report {
     ];
     let mut specs = Vec::new();
     for gs in [2usize, 8] {
-        let mut s = SeqSpec::new(&format!("C15/seq/group{gs}"), alphabet.clone(), if thorough { 6 } else { 4 });
+        let mut s = SeqSpec::new(&format!("C15/seq/group{gs}"), alphabet.clone(), if thorough { 6 } else if gs == 2 { 5 } else { 4 });
         s.wcfg.group_size = gs;
         s.checks = Checks { accounting: true, ..Default::default() };
-        specs.push(s);
+        specs.push(s.clone());
+        if gs == 2 {
+            s.name = "C15/seq/alt-config".into();
+            s.depth = if thorough { 5 } else { 4 };
+            alt_config(&mut s);
+            specs.push(s);
+        }
     }
     let results = run_specs(&specs, a, &no_known);
     seq_report("C15", a, "model_checking", results, SEQ_RULE)
@@ -599,7 +623,19 @@ fn c03(a: &Args) -> Report {
     let mut spec = SeqSpec::new("C03/restart", alphabet, if thorough { 5 } else { 4 });
     spec.metas = vec![0];
     let fine_depth = if thorough { 3 } else { 2 };
-    let r = crate::engines::restart::run(&spec, fine_depth, a.threads);
+    let mut r = crate::engines::restart::run(&spec, fine_depth, a.threads);
+    // the other configuration corner (8-byte keys, 70-bit bloom, filter groups of two, background I/O)
+    let mut alt = spec.clone();
+    alt.name = "C03/restart/alt-config".into();
+    alt.depth = spec.depth - 1;
+    alt_config(&mut alt);
+    let r2 = crate::engines::restart::run(&alt, fine_depth - 1, a.threads);
+    r.stats.states += r2.stats.states;
+    r.stats.restarts += r2.stats.restarts;
+    r.stats.distinct_damaged_dirs += r2.stats.distinct_damaged_dirs;
+    r.stats.fine_states += r2.stats.fine_states;
+    r.stats.samples.extend(r2.stats.samples);
+    r.violations.extend(r2.violations);
     let mut violations = Vec::new();
     let mut machinery = Vec::new();
     for v in &r.violations {
